@@ -176,6 +176,10 @@ var fProg = bigslice.Func(func(tag int, shape, op, prefix string, data, failShar
 		return map2(cache(map1(src)))
 	case "presh":
 		return reduce(cache(map1(src)))
+	case "preshpfx":
+		// the cached slice behind a wrapper (Prefixed with the default prefix): same rows,
+		// same files, same skipping as "presh"
+		return reduce(bigslice.Prefixed(cache(map1(src)), 1))
 	case "postsh":
 		return cache(map3(reduce(map1(src))))
 	case "underhead":
@@ -223,7 +227,7 @@ func (p prog) reads() bool { return p.Op == "read" }
 // (shuffle-free pipelines: shards in order, in-shard order kept).
 func (p prog) ordered() bool {
 	switch p.Shape {
-	case "presh", "postsh", "rc-reduce":
+	case "presh", "preshpfx", "postsh", "rc-reduce":
 		return false
 	}
 	return true
@@ -290,7 +294,7 @@ func expectedRows(p prog) []string {
 			out = append(out, row{r.K + "!", r.V + 1})
 		}
 		return strs(out)
-	case "presh", "rc-reduce":
+	case "presh", "preshpfx", "rc-reduce":
 		return strs(refReduce(m1))
 	case "postsh":
 		var out []row
@@ -391,7 +395,7 @@ func downstream(p prog, shards [][]row) []string {
 			out = append(out, row{r.K + "!", r.V + 1})
 		}
 		return strs(out)
-	case "presh", "rc-reduce":
+	case "presh", "preshpfx", "rc-reduce":
 		return strs(refReduce(shards))
 	case "underhead", "rc-underhead":
 		var out []row
